@@ -96,7 +96,7 @@ func runC04(env *Env) {
 		n = 2000
 	}
 	rng := wvlib.NewRng(env.Seed)
-	comps := []Comp{{"none", 0}, {"gzip", 1}, {"brotli", 1}, {"gzip", 9}, {"brotli", 5}, {"gzip", -2}}
+	comps := []Comp{{"none", 0}, {"gzip", 1}, {"brotli", 1}, {"gzip", 9}, {"brotli", 5}, {"gzip", -2}, {"gzip", 0}, {"brotli", 0}, {"gzip", -1}, {"brotli", 9}, {"brotli", 2}}
 	cases := make([]*PairCase, n)
 	for i := range cases {
 		o := wvlib.PairOpts{MaxFiles: 6, Symlinks: true, AllowLarge: i%12 == 5}
